@@ -48,6 +48,9 @@ type c17Case struct {
 	SamePrefix int `json:"second_mount_on_the_same_prefix,omitempty"`
 	// DottedRoot: the served directory is <sandbox>/dotted/root.v2 (a dot in the root's own name); its parent holds marked files
 	DottedRoot bool `json:"root_directory_name_contains_a_dot,omitempty"`
+	// Alias != "": a route /al/{<Alias>} rewrites the request path to <prefix>/<value>.css and hands the context back to
+	// the router (HandleContext); the mount answers the REWRITTEN path, and only files with an allowed extension
+	Alias string `json:"alias_route_variable,omitempty"`
 }
 
 var (
@@ -81,7 +84,7 @@ func c17Setup() {
 				panic(err)
 			}
 		}
-		for _, f := range []string{"root/a.txt", "root/sub/b.css", "root/sub/c.js", "root/sub/d.md", "root/s.css", "root/e.scss", "root/sub/m.mjs", "root/acss", "root/x.css.bak", "root/dir.js/inner.md", "root/dir.js/index.html",
+		for _, f := range []string{"root/a.txt", "root/a.txt.css", "root/s.css.css", "root/sub/b.css", "root/sub/c.js", "root/sub/d.md", "root/s.css", "root/e.scss", "root/sub/m.mjs", "root/acss", "root/x.css.bak", "root/dir.js/inner.md", "root/dir.js/index.html",
 			// names whose extension equals an allowed one only under Unicode case folding (long s, Kelvin sign), and in upper case
 			"root/k.j\u017f", "root/s.c\u017fs", "root/UP.CSS", "root/m.J\u212a"} {
 			c := "INSIDE:" + f
@@ -147,6 +150,13 @@ func c17Gen(tier string, emit func(c17Case)) {
 		for _, rel := range []string{"pub", "./pub", "pub/", "../site2/pub", ".//pub", "./../site2/pub"} {
 			for _, sc := range []string{"two-mounts", "chdir-between-routers", "chdir-same-router", "root-created-later", "grouped-mounts-same-prefix"} {
 				emit(c17Case{Handler: h, Prefix: "/assets", Rel: rel, Scenario: sc, Depth: 2})
+			}
+		}
+	}
+	for _, p := range []string{"/d", "/deep/d", "/root"} {
+		for _, v := range []string{"file", "name"} {
+			for cache := 0; cache <= 1; cache++ {
+				emit(c17Case{Handler: "StaticFiles", Prefix: p, Alias: v, Cache: cache})
 			}
 		}
 	}
@@ -330,6 +340,57 @@ func c17RunRel(c c17Case, st *fw.Stats, add func(sig, msg string)) {
 	st.Inc("status_200", int64(ok200))
 }
 
+// c17RunAlias: extension-less alias URLs. GET /al/<v> is rewritten to <prefix>/<v>.css and re-dispatched; whatever the
+// alias route captured, the mount serves the file the rewritten path names (or nothing).
+func c17RunAlias(c c17Case, st *fw.Stats, add func(sig, msg string)) {
+	root := filepath.Join(c17Base, "root")
+	var opts []func(*rux.Router)
+	if c.Cache > 0 {
+		opts = append(opts, rux.CachingWithNum(uint16(c.Cache)))
+	}
+	r := rux.New(opts...)
+	r.StaticFiles(c.Prefix, root, "css|js")
+	r.GET("/al/{"+c.Alias+"}", func(ctx *rux.Context) {
+		ctx.Req.URL.Path = c.Prefix + "/" + ctx.Param(c.Alias) + ".css"
+		ctx.Req.URL.RawPath = ""
+		r.HandleContext(ctx)
+	})
+	desc := fmt.Sprintf("StaticFiles(prefix %q, root <sandbox>/root, css|js, cache=%d) next to GET /al/{%s}, whose handler rewrites the request path to %s/<value>.css and calls Router.HandleContext", c.Prefix, c.Cache, c.Alias, c.Prefix)
+	ok200 := 0
+	for round := 0; round < 2; round++ {
+		for _, t := range c17Tokens {
+			if strings.ContainsAny(t, "/%") {
+				continue
+			}
+			st.Evals++
+			st.Nontrivial++
+			w := httptest.NewRecorder()
+			if pv := try(func() {
+				r.ServeHTTP(w, &http.Request{Method: "GET", URL: &url.URL{Path: "/al/" + t}, Header: http.Header{}, Host: "x"})
+			}); pv != nil {
+				add("static:panic", fmt.Sprintf("%s: GET /al/%s panicked: %v", desc, t, pv))
+				continue
+			}
+			body := w.Body.String()
+			if strings.Contains(body, c17Marker) {
+				add("static:outside-content", fmt.Sprintf("%s: GET /al/%s returned content from outside the root: %q", desc, t, trunc(body)))
+				continue
+			}
+			if w.Code != 200 {
+				continue
+			}
+			st.Inc("status_200", 1)
+			ok200++
+			if want := "INSIDE:root/" + t + ".css"; body != want {
+				add("static:files-other-file", fmt.Sprintf("%s: GET /al/%s (rewritten to %s/%s.css) answered 200 with %q; only %q may be answered", desc, t, c.Prefix, t, trunc(body), want))
+			}
+		}
+	}
+	if ok200 != 4 {
+		add("static:alias-vacuous", fmt.Sprintf("%s: %d alias requests were answered 200, expected 4 (a.txt.css and s.css.css, twice)", desc, ok200))
+	}
+}
+
 func c17Run(c c17Case, st *fw.Stats) []fw.Viol {
 	c17Setup()
 	var vs []fw.Viol
@@ -340,6 +401,10 @@ func c17Run(c c17Case, st *fw.Stats) []fw.Viol {
 	}
 	if c.Rel != "" {
 		c17RunRel(c, st, add)
+		return vs
+	}
+	if c.Alias != "" {
+		c17RunAlias(c, st, add)
 		return vs
 	}
 	root := filepath.Join(c17Base, "root")
@@ -528,7 +593,7 @@ func c17Run(c c17Case, st *fw.Stats) []fw.Viol {
 var c17Spec = fw.Spec[c17Case]{
 	ID:    "C17",
 	Level: "model_checking",
-	Rule: "complete enumeration: all request paths of <=3 (thorough 4) tokens over 36 tokens {.., ., empty, sub, a.txt, b.css, SECRET.txt, rootx, %2e%2e, ..%2f, %2f, \\, %5c.., %00, 'a.txt.', '.../', s.css, ..%5c, c.js, e.scss, m.mjs, acss, x.css.bak, dir.js, inner.md, 'a.txt;.css', 'd.md;x.js', 'a.txt%3B.css', ';', names with a long s / in upper case where the extension list says js / css} after each mount prefix, sent with URL.RawPath = the raw string and URL.Path = its decoding, for StaticDir / StaticFS(http.Dir) / StaticFiles(css|js) / StaticFile x prefixes {/d, /deep/d, /root (= the directory's own name)} x both UseEncodedPath settings (and with a global path variable named like the handlers' internal variable; and with the mount and a second mount of the sibling directory inside nested groups with 2+1 / 3+1 / 1+1 middleware, requested alternately; and with a second StaticFiles mount on the SAME prefix serving another root with another extension list, registered before / after), against a real sandbox tree with marked files outside the root (parent directory, name-prefix sibling 'rootx'; also with a root directory whose own name contains a dot); plus relative roots in 6 spellings x 4 handlers x 5 arrangements (other mounts whose directory names differ by leading dots / slashes; another router or another mount registered while the process worked in a directory of the same layout; the root created only after the mount was registered; two groups mounting under the same prefix argument with different roots, the other one requested first) probed with all paths of <=2 tokens over 12 tokens; " +
+	Rule: "complete enumeration: all request paths of <=3 (thorough 4) tokens over 36 tokens {.., ., empty, sub, a.txt, b.css, SECRET.txt, rootx, %2e%2e, ..%2f, %2f, \\, %5c.., %00, 'a.txt.', '.../', s.css, ..%5c, c.js, e.scss, m.mjs, acss, x.css.bak, dir.js, inner.md, 'a.txt;.css', 'd.md;x.js', 'a.txt%3B.css', ';', names with a long s / in upper case where the extension list says js / css} after each mount prefix, sent with URL.RawPath = the raw string and URL.Path = its decoding, for StaticDir / StaticFS(http.Dir) / StaticFiles(css|js) / StaticFile x prefixes {/d, /deep/d, /root (= the directory's own name)} x both UseEncodedPath settings (and with a global path variable named like the handlers' internal variable; and with the mount and a second mount of the sibling directory inside nested groups with 2+1 / 3+1 / 1+1 middleware, requested alternately; and with a second StaticFiles mount on the SAME prefix serving another root with another extension list, registered before / after; and reached through an alias route /al/{file|name} that rewrites the path to <prefix>/<value>.css and re-dispatches with HandleContext), against a real sandbox tree with marked files outside the root (parent directory, name-prefix sibling 'rootx'; also with a root directory whose own name contains a dot); plus relative roots in 6 spellings x 4 handlers x 5 arrangements (other mounts whose directory names differ by leading dots / slashes; another router or another mount registered while the process worked in a directory of the same layout; the root created only after the mount was registered; two groups mounting under the same prefix argument with different roots, the other one requested first) probed with all paths of <=2 tokens over 12 tokens; " +
 		"oracle: no body carries an outside marker or lists an outside directory, every 200 body is a file under the root, StaticFiles answers 200 only for allowed extensions, StaticFile only its file; non-trivial = a path containing a dot-dot in some encoding",
 	Assume: []string{"relative to the sandbox tree and the OS / file system the check runs on", "net/http's FileServer is part of the implementation under test, not of the oracle"},
 	Bounds: func(tier string) map[string]any {
